@@ -259,6 +259,27 @@ type Uni struct {
 	Z       int32
 }
 
+// IOrder / IDoc: a pointer INTO a struct (to its first field) next to a pointer to the struct itself:
+// two objects of different types at one address
+type IHead struct {
+	No    int32
+	Title string
+}
+type ILine struct {
+	Qty  int32
+	Item string
+}
+type IParty struct{ Name string }
+type IDoc struct {
+	Header IHead
+	Lines  []ILine
+	Party  *IParty
+}
+type IOrder struct {
+	Head *IHead
+	Doc  *IDoc
+}
+
 // UniFirst: exported fields whose FIRST letter is an upper-case letter outside A-Z
 type UniFirst struct {
 	Étage int32
@@ -484,6 +505,21 @@ type EmbPtrHolder struct {
 	N NamedS
 }
 
+// EmbDeep: nil embedded pointers TWO levels deep in front of a custom-named struct
+type EmbMid struct {
+	*NamedS
+	M int32
+}
+type EmbDeep struct {
+	*EmbMid
+	N int32
+}
+type EmbDeepHolder struct {
+	A EmbDeep
+	P *EmbDeep
+	L []EmbDeep
+}
+
 // MapThenInts: a typed (named) map in front of integer lists of different widths, one type repeated
 type MapThenInts struct {
 	M NamedMap
@@ -683,12 +719,12 @@ var Types = []Entry{
 	e(Inner{}), e(Inner2{}), e(WithInner{}, "nested", "ptr"),
 	e(Embedded{}, "embedded"), e(Embedded2{}, "embedded"),
 	e(NamedS{}, "custom"), e(NamedHolder{}, "custom"), e(NamedListHolder{}, "custom", "custom-slice"), e(NamedMapHolder{}, "custom", "custom-map"), e(MapThenLists{}, "custom", "custom-map", "slice"), e(PadThen{}, "scalars"),
-	e(Uni{}, "scalars", "unicode-fields"), e(UniFirst{}, "scalars", "unicode-fields", "recursive"), e(NamedNode{}, "recursive", "custom"), e(MpStructKey{}, "map", "struct-key"), e(MpStrAny{}, "map", "iface"),
+	e(Uni{}, "scalars", "unicode-fields"), e(IOrder{}, "nested", "slice", "interior-pointer"), e(UniFirst{}, "scalars", "unicode-fields", "recursive"), e(NamedNode{}, "recursive", "custom"), e(MpStructKey{}, "map", "struct-key"), e(MpStrAny{}, "map", "iface"),
 	e(SlMapSl{}, "slice", "slice-of-map"), e(SlMapPtr{}, "slice", "slice-of-map", "recursive"), e(MpMpPtr{}, "map", "recursive"), e(MpNamed{}, "map", "custom", "custom-map"), e(GroesseHolder{}, "custom", "custom-map", "slice", "nonascii-names"), e(CaseFloats{}, "scalars", "case-variant-fields"), e(LongNames{}, "scalars"),
 	e(TimesThenRefs{}, "slice", "recursive"), e(Dog{}, "embedded", "custom"), e(DogHolder{}, "embedded", "custom"), e(GBoxHolder{}, "generic", "slice"), e(GM{}, "recursive", "custom-map"), e(AnyPropsHolder{}, "map", "custom", "custom-map", "iface"), e(MpOfMaps{}, "map"), e(SlOfMaps{}, "slice", "slice-of-map"),
 	e(PNamed{}, "ptr-receiver-name"), e(EmbPNamed{}, "embedded", "ptr-receiver-name"), e(EmbPNamedHolder{}, "embedded", "ptr-receiver-name", "slice"),
 	e(MapThenFloats{}, "custom", "custom-map", "slice"),
-	e(Trip{}, "nested", "slice", "time-internals-names"), e(EmbPtrNamed{}, "embedded", "custom"), e(EmbPtrHolder{}, "embedded", "custom"),
+	e(Trip{}, "nested", "slice", "time-internals-names"), e(EmbPtrNamed{}, "embedded", "custom"), e(EmbDeep{}, "embedded", "custom"), e(EmbDeepHolder{}, "embedded", "custom", "slice"), e(EmbPtrHolder{}, "embedded", "custom"),
 	e(TwoNarrow{}, "slice"), e(MapThenInts{}, "custom", "custom-map", "slice"), e(CaseInts{}, "scalars", "case-variant-fields"), e(EmbNamed{}, "embedded", "custom"), e(EmbNamedHolder{}, "embedded", "custom", "slice"),
 	e(HoldR{}, "slice", "map", "self-referential-container"), e(NamedScalars{}, "scalars", "named-scalars", "slice", "map"),
 	e(DigestHolder{}, "slice", "named-bytes"), e(StampedHolder{}, "embedded", "embedded-time"), e(PtrMap{}, "map", "ptr-map"),
@@ -707,7 +743,7 @@ var Types = []Entry{
 	top([]float64{}, "slice"), top([]int64{}, "slice"), top(NamedList{}, "slice", "custom"),
 	top(map[string]string{}, "map", "top-unnamed-map"), top(map[string]int32{}, "map", "top-unnamed-map"), top(map[interface{}]interface{}{}, "map", "iface"), top(NamedMap{}, "map", "custom"), top(NamedPtrMap{}, "map", "custom", "recursive"),
 	top(int32(0), "scalar"), top(int64(0), "scalar"), top(float64(0), "scalar"), top("", "scalar"), top(true, "scalar"),
-	top([]byte{}, "scalar"), top(time.Time{}, "scalar"), top(int(0), "scalar"), top(uint16(0), "scalar"), top(float32(0), "scalar"),
+	top([]byte{}, "scalar"), top(time.Time{}, "scalar"), top(int(0), "scalar"), top(uint16(0), "scalar"), top(float32(0), "scalar"), top(uint32(0), "scalar"), top(int16(0), "scalar"), top(int8(0), "scalar"), top(uint8(0), "scalar"),
 }
 
 var byName = map[string]Entry{}
